@@ -105,12 +105,13 @@ Example ex_needs_md5_bytes :
 Proof. eexists. vm_compute. reflexivity. Qed.
 
 (** a length beyond bendy's i64: not reachable by computation (a file of 2^63 bytes); the
-    serialised integer is refused by the strict reader *)
+    serialised integer is refused by the typed loader (`length` is buffered by serde's flatten and read as
+    i64; the projection [load] alone does not look at the range) *)
 Example ex_needs_i64_length :
   let t := {| tname := IN; tplen := 4; tpieces := []; tmode := Single (2 ^ 63) None |} in
   Metainfo.input_ok (input_of t) = false /\
   match Metainfo.build idb idb [] (opts_of MetainfoProofs.ex_opts false t) (content_of t) with
-  | Some v => load (encode v) = None
+  | Some v => load_typed (fun h => Some h) (fun u => Some u) (encode v) = None
   | None => False
   end.
 Proof. vm_compute. split; reflexivity. Qed.
